@@ -319,7 +319,7 @@ func drawC13(t *rapid.T, maxLen int) C13Case {
 	c.Transform = rapid.SampledFrom(gen.TransformNames[1:]).Draw(t, "transform")
 	c.Direct = rapid.Bool().Draw(t, "direct")
 	c.Entropy = rapid.SampledFrom([]string{"NONE", "HUFFMAN", "ANS0", "RANGE", "ANS1", "FPAQ", "CM", "TPAQ", "TPAQX"}).Draw(t, "entropy")
-	c.Jobs = uint(rapid.IntRange(1, 8).Draw(t, "jobs"))
+	c.Jobs = uint(rapid.OneOf(rapid.IntRange(1, 8), rapid.IntRange(1, 32)).Draw(t, "jobs"))
 	ml := maxLen
 	switch c.Transform {
 	case "BWT", "BWTS":
@@ -417,7 +417,7 @@ func TestC13(t *testing.T) {
 			base  int
 			delta []int
 		}
-		fam := []dcase{{"ROLZX", 16 << 20, []int{1, 3, 7, 12}}, {"ROLZ", 16 << 20, []int{1, 5, 12}}, {"BWT", 8 << 20, []int{4097}}, {"BWT", 4 << 20, []int{5}}}
+		fam := []dcase{{"ROLZX", 16 << 20, []int{1, 3, 7, 12}}, {"ROLZ", 16 << 20, []int{1, 5, 12}}, {"BWT", 8 << 20, []int{4097}}, {"BWT", 4 << 20, []int{5, 4101, 77}}}
 		if r.Thorough() {
 			all := []int{-1, 0, 1, 2, 3, 4, 5, 6, 7, 8, 9, 10, 11, 12, 13, 4097}
 			fam = []dcase{{"ROLZX", 16 << 20, all}, {"ROLZ", 16 << 20, all}, {"ROLZX", 32 << 20, []int{0, 2, 6, 12}}, {"ROLZ", 32 << 20, []int{2, 6}}}
@@ -429,7 +429,7 @@ func TestC13(t *testing.T) {
 				if !r.Mine(idx) || r.Failed() {
 					continue
 				}
-				c := C13Case{Transform: f.tr, Direct: idx%2 == 0, Entropy: "NONE", DataType: -1, Jobs: uint(1 + (idx/2)%2*3),
+				c := C13Case{Transform: f.tr, Direct: idx%2 == 0, Entropy: "NONE", DataType: -1, Jobs: []uint{1, 1, 4, 12, 3, 32}[idx%6],
 					Data: gen.Recipe{Kind: []int{gen.KText, gen.KRuns, gen.KXML}[idx%3], Len: f.base + d, Seed: uint64(idx), P1: 1}}
 				o := c13Eval(r, c)
 				r.Label("directed:rolz-chunk-boundary")
